@@ -220,7 +220,7 @@ def bbox_of(segs):
     return (min(xs), min(ys), max(xs), max(ys))
 
 
-def gen_doc(rng, pool=None, solid_only=False, max_items=4, allow_groups=True, viewbox=None, allow_special=True):
+def gen_doc(rng, pool=None, solid_only=False, max_items=4, allow_groups=True, viewbox=None, allow_special=True, var_opaque=False):
     """One source.  `pool` is a list of (kind, base segments) shared between the documents of
     one font so that shapes recur under isometries/scales (cross-glyph reuse)."""
     if viewbox is None:
@@ -246,6 +246,8 @@ def gen_doc(rng, pool=None, solid_only=False, max_items=4, allow_groups=True, vi
         placed = apply_affine(t, segs)
         fill = gen_solid(rng, allow_special) if (solid_only or rng.random() < 0.55) else gen_gradient(rng, bbox_of(placed))
         op = rng.choice([1.0, 1.0, 1.0, 0.5, 0.8]) if not solid_only or rng.random() < 0.3 else 1.0
+        if var_opaque and isinstance(fill, Solid) and fill.css.startswith("var("):
+            op = 1.0  # COLRv0 keeps alpha in the palette entry: one index, one alpha
         return Shape(segs_to_d(placed), fill, op)
 
     def make_item(depth):
